@@ -11,8 +11,8 @@ CHECKS = {
             'virtual runtime that owns rx schedulers, threads, events, locks, sleeps, the clock and the task backend. ~900 (workflow x exit '
             'script x duration) scenarios over 26 workflow shapes (incl. real DoWhile loops, a restart from a later stage, operator pause/wake-up and '
             'memoization through a fake component database) are executed on '
-            'the canonical fair schedule; every schedule with <=1 deviation is executed for the core scenarios (thorough: for every single-fault '
-            'scenario), every 1-deviation schedule at boundary actions for the two-fault race scenarios, and line-level preemption points with a '
+            'the canonical fair schedule; every schedule with <=1 deviation is executed for the core scenarios (thorough: every single-fault '
+            'scenario of five core workflows), every 1-deviation schedule at boundary actions for the two-fault race scenarios, and line-level preemption points with a '
             'stall deviation inside Controller.run / finishedCheck / ComponentState.finish. The launch-ordering invariant is evaluated at every '
             'task creation and every ComponentState.run(). Bounded: <=6 components, <=3 stages, deviation bound 1 (2 at boundary actions, thorough).',
             'scripted task backend/clock/output listing; scheduling points at synchronisation operations only; optimizer, hybrid, memoization off',
